@@ -28,7 +28,7 @@ EXPLANATION = (
     "feed an index are sites as well. This decides 'never a panic' on all control-flow paths, not which strings are "
     "accepted."
 )
-EXPLANATION_ADD = ' Additions: (SIB-asn-boundary) Display and FromStr of Asn use the same decimal-notation boundary 2^32-1; (SPLIT-both) both halves of every split_once are examined; (SPLIT-exhaust) a split iterator read with explicit next() calls accounts for the rest (splitn(k) with k reads, or whole-iterator consumption).'
+EXPLANATION_ADD = ' Additions: (SIB-asn-boundary) Display and FromStr of Asn use the same decimal-notation boundary 2^32-1; (SPLIT-both) both halves of every split_once are examined; (SPLIT-exhaust) a split iterator read with explicit next() calls accounts for the rest (splitn(k) with k reads, or whole-iterator consumption); (TRIM-repeat) no trim_*_matches call (unbounded repetition stripped) in the text parsers; (TRIM-ws) whitespace trimming only in the DNS TXT record parser.'
 EXPLANATION = EXPLANATION + EXPLANATION_ADD
 RESIDUAL = [
     "exact acceptance: a string is accepted only if it is the displayed form of some value (language equality over all strings) — decided only through the necessary conditions SPLIT-both / SPLIT-exhaust (no part of the input goes unexamined)",
@@ -92,6 +92,7 @@ def run(F, R, tier, cfg):
     strip_rule(F, R)
     split_both_rule(F, R, set(F.reachable(ents)))
     split_exhaust_rule(F, R, set(F.reachable(ents)))
+    trim_rule(F, R, set(F.reachable(ents)))
 
 
 def strip_rule(F, R):
@@ -283,3 +284,45 @@ def split_exhaust_rule(F, R, fns):
                 R.violation("SPLIT-exhaust", "%s/%s" % (p, kind), "%s takes fields off a split iterator without accounting for the rest (%s): trailing fields of the "
                             "input are accepted and ignored" % (short(p), why), c.span.loc)
     R.floor("SPLIT-exhaust", n, 2, "split iterators in the text parsers (Asn::from_str, parse_scion_addr)")
+
+
+TRIM_REPEAT = re.compile(r"<impl str>::(trim_matches|trim_start_matches|trim_end_matches|trim_left_matches|trim_right_matches)$")
+TRIM_WS = re.compile(r"<impl str>::(trim|trim_start|trim_end|trim_left|trim_right|trim_ascii|trim_ascii_start|trim_ascii_end)$")
+TXT_PARSER = "scion_stack::resolver::txt::"
+
+
+def trim_rule(F, R, fns):
+    """TRIM-repeat / TRIM-ws: "no trailing or leading garbage is silently dropped".  `trim_*_matches(pat)` strips an unbounded
+    repetition of `pat` ("CS_A_A_A" → "CS"), so strings that are the displayed form of no value are accepted; whitespace
+    trimming is the documented tolerance of the DNS TXT record parser only (who-may-call), the sciparse text forms have none."""
+    R.ob("TRIM-repeat", "positive control: the matcher recognises core::str::<impl str>::trim_end_matches and not strip_suffix",
+         bool(TRIM_REPEAT.search("core::str::<impl str>::trim_end_matches")) and not TRIM_REPEAT.search("core::str::<impl str>::strip_suffix"), True)
+    nws = 0
+    examined = 0
+    nrep = 0
+    for p in sorted(fns):
+        b = F.body(p)
+        if b is None or T.is_test_support(p):
+            continue
+        examined += 1
+        for c in b.calls:
+            if c.indirect or c.bb not in b.live_blocks():
+                continue
+            nm = c.decl.split("::")[-1]
+            if TRIM_REPEAT.search(c.decl):
+                nrep += 1
+                R.fn(p)
+                R.ob("TRIM-repeat", "%s: no repeated-pattern trimming" % short(p), False, True, {"rule": "TRIM-repeat", "fn": p, "loc": c.span.loc, "holds": False})
+                R.violation("TRIM-repeat", "%s/%s" % (p, nm), "%s strips an unbounded repetition of a pattern from its input with %s: strings with the "
+                            "pattern repeated are accepted although they are the displayed form of no value" % (short(p), nm), c.span.loc)
+            elif TRIM_WS.search(c.decl):
+                nws += 1
+                ok = p.startswith(TXT_PARSER)
+                R.fn(p)
+                R.ob("TRIM-ws", "%s: whitespace trimming only in the TXT record parser" % short(p), ok, True, {"rule": "TRIM-ws", "fn": p, "loc": c.span.loc, "holds": ok})
+                if not ok:
+                    R.violation("TRIM-ws", "%s/%s" % (p, nm), "%s drops leading/trailing whitespace of its input (%s): only the DNS TXT record parser "
+                                "documents that tolerance" % (short(p), nm), c.span.loc)
+    if not nrep:
+        R.ob("TRIM-repeat", "no trim_*_matches call in the %d functions reachable from the text-form entry points" % examined, True, True)
+    R.floor("TRIM-ws", nws, 1, "whitespace trims in the text parsers (parse_txt_payload)")
